@@ -23,12 +23,17 @@ DECIDED = [
     "R-C10-GATE (shared counter): the started-executions counter compared with max_tasks is state of the runner, not a local of one queue's loop; R-C10-STOP (order): finish_gracefully precedes the consumers' finish() (C03's shutdown rules reused)",
     "R-C10-STOP (all paths): the done-callback counts the task and evaluates the limit on every path, however the task ended",
     "R-C10-STOP (round 5): the Redis finish() awaits its rejects, finish() drains only this consumer's own container, and the in-memory take records its holder before its last suspension point (C03 / C14 rules reused)",
+    "R-C10-PLUGIN / R-C10-GATE (round 6): the run-on-enqueue wrapper holds no lock across its awaits; the limiter is as wide as tasks_limit whatever the budget",
+    "R-C10-AWAITED: in the files this property is anchored in, no bare statement calls a coroutine function (the operation would never run)",
 ]
 NOT_DECIDED = ["that run() returns promptly once M executions have finished (timing)"]
 ASSUMPTIONS = ["C09 (ownership): tasks are spawned only by the consume loop"]
 
 
 def run(ctx: Ctx) -> None:
+    from .shared import every_operation_awaited
+
+    every_operation_awaited(ctx, "R-C10-AWAITED")  # in the files this property is anchored in, no asynchronous operation is created and dropped
     gate(ctx)
     stop(ctx)
     plugin(ctx)
@@ -37,6 +42,10 @@ def run(ctx: Ctx) -> None:
     unchanged(ctx, "R-C10-STOP")  # messages beyond the limit are returned untouched
     shutdown(ctx, "R-C10-STOP")  # the M started executions finish (finish_gracefully) before their messages could be handed back by finish()
     graceful_budget(ctx, "R-C10-STOP")
+    from .C09 import own_rule
+
+    with ctx.as_rule("R-C10-GATE"):
+        own_rule(ctx, "R-C10-GATE")  # the limiter is as wide as tasks_limit, independent of the budget: a message beyond M is bounced at once, not held until a slot frees while the stop is under way
     from .brokers import inmem_consume_rules
     from .C03 import finish
     from .C14 import finish_own
@@ -192,6 +201,10 @@ def plugin(ctx: Ctx, rule="R-C10-PLUGIN") -> None:
     m = ctx.func("repid.testing.modifiers.RunWorkerOnEnqueueModifier.wrapper")
     inner = m.nested.get("inner")
     ctx.require(inner is not None, f"{m.qualname}: inner wrapper not found")
+    from .shared import no_lock_across_reentry
+
+    no_lock_across_reentry(ctx, rule, inner, "an actor that enqueues a follow-up job re-enters this wrapper while the outer enqueue still holds the lock: the inner enqueue waits for the lock, the "
+                           "actor for the inner enqueue, the one-message worker for the actor - enqueue never returns")
     g = ctx.cfg(inner)
     fn_calls = [n for n in g.calls() if n.callee == "fn"]
     mi = ctx.func("repid.testing.modifiers.RunWorkerOnEnqueueModifier.__init__")
